@@ -44,7 +44,10 @@ func New(r ReadSeekSizer) *Parser {
 	p := &Parser{
 		r: r,
 	}
-	err := p.SeekPos(0)
+	// The buffer window is empty and starts at offset 0: the underlying
+	// reader must be positioned there, wherever its owner has left it.
+	// (SeekPos(0) would regard offset 0 as inside the empty window.)
+	_, err := r.Seek(0, io.SeekStart)
 	if err != nil {
 		panic(err)
 	}
